@@ -1,0 +1,8 @@
+//go:build verif
+
+// Contracts for the deductive checks in /verif (comment-only; not part of normal builds).
+
+package context
+
+// contexts are always built by NewClientContext / NewDatatypeContext with their embedded parts
+//@ typeinv DatatypeContext.ClientContext : *ClientContext
